@@ -245,10 +245,120 @@ func c01Sort(c *core.Ctx) {
 	c.NontrivialStr("sort|" + core.JSON(desc))
 }
 
+// c01BigCap: "a Stack of any kind" includes one whose capacity is a large number. A capacity of 66 000 (or 140 000, or a
+// million) is honoured exactly like one of 5: that many values are held, in order, and not one more.
+func c01BigCap(c *core.Ctx, idx int) {
+	r := c.Rng
+	cfg := randListCfg(r)
+	switch r.Intn(4) {
+	case 0:
+		cfg.Cap = r.Range(65530, 65545)
+	case 1:
+		cfg.Cap = r.Range(65546, 70000)
+	case 2:
+		cfg.Cap = r.Range(131070, 140000)
+	default:
+		cfg.Cap = r.Range(32760, 33000)
+		if c.Tier == "thorough" {
+			cfg.Cap = r.Range(1<<20-5, 1<<20+4000)
+		}
+	}
+	s, m := cfg.Build()
+	var log []string
+	fail := func(op LOp, a, d string) {
+		c.Violate("bigcap:"+op.K+":"+a, fmt.Sprintf("after %s on [%s]: %s", op, cfg, d), map[string]any{"cfg": cfg, "ops": log})
+	}
+	n := 0
+	next := func() any { n++; return n }
+	spot := func(op LOp) bool {
+		L := m.Len()
+		if got := s.Len(); got != L {
+			fail(op, "Len", fmt.Sprintf("Len()=%d, the ordered list bounded by %d holds %d", got, cfg.Cap, L))
+			return false
+		}
+		for _, i := range []int{0, 1, L / 2, 65533, 65534, 65535, 65536, 131071, 131072, L - 2, L - 1, L} {
+			if i < 0 {
+				continue
+			}
+			gv, gok := s.Index(i)
+			wv, wok := m.Index(i)
+			if gok != wok || !SameValue(gv, wv) {
+				fail(op, "Index", fmt.Sprintf("Index(%d)=(%s,%v), the ordered list has (%s,%v) at Len %d", i, Show(gv), gok, Show(wv), wok, L))
+				return false
+			}
+		}
+		return true
+	}
+	step := func(op LOp) bool {
+		op = op.Resolve(m.Len())
+		if len(op.Vals) > 8 {
+			log = append(log, fmt.Sprintf("%s(%d values)", op.K, len(op.Vals)))
+		} else {
+			log = append(log, op.String())
+		}
+		if a, d := ApplyLOp(s, m, op); a != "" {
+			fail(op, a, d)
+			return false
+		}
+		return spot(op)
+	}
+	ok := true
+	for !m.Full() && ok {
+		k := r.Range(1, 9000)
+		if r.Chance(1, 3) {
+			k = r.Range(1, 40)
+			if room := cfg.Cap - m.Len(); room > 200 {
+				k = room - r.Range(0, 3) // right up to the brim, or just short of it
+			}
+		}
+		vals := make([]any, k)
+		for i := range vals {
+			vals[i] = next()
+		}
+		ok = step(LOp{K: "Push", Vals: vals})
+	}
+	if ok {
+		ok = step(LOp{K: "Push", Vals: []any{next()}}) // full: refused
+	}
+	if ok {
+		ok = step(LOp{K: "Insert", Vals: []any{next()}, I: r.Intn(m.Len())}) // full: refused
+	}
+	for i := 0; i < 3 && ok; i++ {
+		ok = step(LOp{K: "Pop"})
+		if ok {
+			ok = step(LOp{K: "Insert", Vals: []any{next()}, I: []int{0, m.Len(), 65535, m.Len() - 1}[r.Intn(4)]})
+		}
+	}
+	if ok {
+		ok = step(LOp{K: "Remove", I: r.Intn(m.Len())})
+	}
+	if ok {
+		ok = step(LOp{K: "Push", Vals: []any{next(), next(), next()}}) // room for one
+	}
+	if ok {
+		if a, d := ObserveList(s, m); a != "" {
+			fail(LOp{K: "end"}, a, d)
+			return
+		}
+		ok = step(LOp{K: "Reset"})
+	}
+	if ok {
+		ok = step(LOp{K: "Push", Vals: []any{next(), next()}})
+	}
+	if ok {
+		c.Count("bigcap-histories")
+		c.NontrivialStr(fmt.Sprintf("bigcap|%d", cfg.Cap>>12))
+	}
+}
+
 func c01Run(c *core.Ctx, idx int) {
 	maxLen, exh, _ := c01Tier(c.Tier)
 	if idx >= exh && idx%97 == 96 {
 		c01Sort(c)
+		return
+	}
+	if idx >= exh && idx%9973 == 4986 {
+		c01BigCap(c, idx)
 		return
 	}
 	r := c.Rng
@@ -459,6 +569,7 @@ func init() {
 				f["op."+k] = 100
 			}
 			f["histories.long"] = 500
+			f["bigcap-histories"] = 10
 			for _, k := range Kinds {
 				for _, o := range []string{"lifo", "fifo"} {
 					for _, cp := range []string{"cap", "nocap"} {
